@@ -21,6 +21,9 @@ type FnResult struct {
 	CoverCond  *Term
 	GenSecs    float64
 	Err        string
+	ctx        *FnCtx
+	fn         *ssa.Function
+	args       []Value
 }
 
 var safetyKinds = map[string]bool{"bounds": true, "nil": true, "div": true, "shift": true, "assertT": true, "panic": true, "alloc": true, "variant": true}
@@ -42,7 +45,7 @@ func shortKey(k string) string {
 func (e *Engine) newCtx(fn *ssa.Function, ct *Contract) *FnCtx {
 	c := &FnCtx{e: e, f: NewFactory(), top: fn, contract: ct, kindCount: map[string]int{}, heap0: map[string]*Term{},
 		heapSort: map[string]Sort{}, used: map[string]bool{}, freshRefs: map[int]bool{}, structs: map[string]*structInfo{},
-		globals: map[*ssa.Global]*Term{}, ghostByType: map[string][]ghostField{}}
+		globals: map[*ssa.Global]*Term{}, ghostByType: map[string][]ghostField{}, inlinedExt: map[string]bool{}}
 	c.f.RegisterSeq("B", SInt, true)
 	c.alpha0 = c.f.Const("alpha0", SInt)
 	c.f.SetRange(c.alpha0, bi(0), nil)
@@ -164,7 +167,9 @@ func (e *Engine) VerifyFunction(key string) (res *FnResult) {
 		}
 		switch {
 		case safetyKinds[o.Kind]:
-			if has(ct.Props, "C03") {
+			if len(ct.Safety) > 0 {
+				o.Props = ct.Safety
+			} else if has(ct.Props, "C03") {
 				o.Props = []string{"C03"}
 			} else {
 				o.Props = ct.Props
@@ -192,5 +197,6 @@ func (e *Engine) VerifyFunction(key string) (res *FnResult) {
 	}
 	sort.Strings(res.Used)
 	res.Script = c.buildScript()
+	res.ctx, res.fn, res.args = c, fn, args
 	return
 }
